@@ -20,6 +20,7 @@ AllowedCopy == AllowedIn("copy")
 Allowed(m) == CASE m = "compress" -> AllowedCompress [] m = "expand" -> AllowedExpand [] m = "copy" -> AllowedCopy
                 [] OTHER -> {<<"main", "Start", 0>>}
 
+MainPathEv == {"OpIn", "Cli", "OpOut", "Worked", "Halt", "OutDone", "InRm", "Sti", "StiDone", "InDone", "Exit", "Cleanup", "Terminate", "BailoutMain", "BailoutSub"}
 VARIABLES l, mode, role, counts
 vars == <<l, mode, role, counts>>
 Ev == TraceLog[l]
@@ -41,6 +42,7 @@ Next == /\ l <= Len(TraceLog)
            THEN /\ mode' = "none"
                 /\ role' = (IF Ev.e = "Start" THEN (Ev.tid :> "main") ELSE EmptyFn)
                 /\ UNCHANGED counts
+           ELSE IF Ev.e \in MainPathEv THEN UNCHANGED <<mode, role, counts>>      \* (TraceCrash.tla's events)
            ELSE LET m == ModeAfter(Ev.e, 0)
                     r == IF Ev.tid \in DOMAIN role THEN role[Ev.tid] ELSE FirstRole(Ev.e) IN
                 /\ mode' = m
